@@ -13,7 +13,12 @@ import (
 // actually did (their call/ret records in the same log). Violations carry
 // C15/ signatures, whichever property's scenario produced the trace.
 func lifecycleOracle(c *Ctx, w *World) {
-	evs := w.E.Log.Snapshot()
+	lifecycleOracleOn(c, w.E.Log.Snapshot(), w.E.Cfg.Extensions)
+}
+
+// lifecycleOracleOn is the checker proper: a pure function of a recorded log (also fed with
+// hand-written logs by the oracle self-tests).
+func lifecycleOracleOn(c *Ctx, evs []vh.Event, cfgExtensions []string) {
 	var stream []vh.Event
 	for _, e := range evs {
 		if e.Src == "events" {
@@ -270,7 +275,7 @@ func lifecycleOracle(c *Ctx, w *World) {
 				}
 			}
 		}
-		for _, cfgName := range w.E.Cfg.Extensions {
+		for _, cfgName := range cfgExtensions {
 			known[cfgName] = true
 		}
 		for _, l := range ep.extLines {
